@@ -80,6 +80,13 @@ static void expect_exc(Ctx &c, bool overflow) {
 #else
 #define ARM_FAULT() do { } while (0)
 #endif
+// Known finding g-insert-mid-throw (known_findings.json): inserting several elements in the middle is not even basic
+// exception safe.  While the finding is open the region "insertion before end() AND an injected fault" is excluded.
+#ifdef KF_INSERT_MID_THROW
+#define KF_DISARM(pos) ((pos) < c.m.n ? (void)(vf::g_fault_at = 0) : (void)0)
+#else
+#define KF_DISARM(pos) ((void)0)
+#endif
 #ifndef VF_CLS2
 #define VF_CLS2 2
 #endif
@@ -214,6 +221,7 @@ OP(insert_n) {
     E tmp(Elem<E>::make(x));
     c.snap(); ARM_FAULT();
     V::iterator r = nullptr;
+    KF_DISARM(pos);
     VF_TRY(c, r = c.v().insert(c.v().begin() + pos, static_cast<S>(cnt), tmp));
     expect_exc(c, must_overflow(c.m.n + cnt));
     if (OK(c)) { c.m.insert(pos, cnt, x); vf_assert(r == c.v().begin() + pos, 1004); }
@@ -241,9 +249,9 @@ OP(insert_n) {
     c.finish();                                                                                         \
   }
 #define INS_MODEL c.m.insert_range(pos, src.vals, src.n); vf_assert(r == c.v().begin() + pos, 1004);
-RANGE_OP(insert_range_ptr, c.m0.n + src.n, 0, r = c.v().insert(c.v().begin() + pos, static_cast<const E *>(src.a()), static_cast<const E *>(src.a() + src.n)), pos == c.m0.n, INS_MODEL)
-RANGE_OP(insert_range_fwd, c.m0.n + src.n, 0, r = c.v().insert(c.v().begin() + pos, vf::FwdIt<E>(src.a()), vf::FwdIt<E>(src.a() + src.n)), pos == c.m0.n, INS_MODEL)
-RANGE_OP(insert_range_bid, c.m0.n + src.n, 0, r = c.v().insert(c.v().begin() + pos, vf::BidIt<E>(src.a()), vf::BidIt<E>(src.a() + src.n)), pos == c.m0.n, INS_MODEL)
+RANGE_OP(insert_range_ptr, c.m0.n + src.n, 0, (KF_DISARM(pos), r = c.v().insert(c.v().begin() + pos, static_cast<const E *>(src.a()), static_cast<const E *>(src.a() + src.n))), pos == c.m0.n, INS_MODEL)
+RANGE_OP(insert_range_fwd, c.m0.n + src.n, 0, (KF_DISARM(pos), r = c.v().insert(c.v().begin() + pos, vf::FwdIt<E>(src.a()), vf::FwdIt<E>(src.a() + src.n))), pos == c.m0.n, INS_MODEL)
+RANGE_OP(insert_range_bid, c.m0.n + src.n, 0, (KF_DISARM(pos), r = c.v().insert(c.v().begin() + pos, vf::BidIt<E>(src.a()), vf::BidIt<E>(src.a() + src.n))), pos == c.m0.n, INS_MODEL)
 #define APP_MODEL c.m.insert_range(c.m.n, src.vals, src.n);
 RANGE_OP(append_range_ptr, c.m0.n + src.n, 0, (pos = c.m.n, c.v().append(static_cast<const E *>(src.a()), static_cast<const E *>(src.a() + src.n))), true, APP_MODEL)
 RANGE_OP(append_range_fwd, c.m0.n + src.n, 0, (pos = c.m.n, c.v().append(vf::FwdIt<E>(src.a()), vf::FwdIt<E>(src.a() + src.n))), true, APP_MODEL)
